@@ -48,11 +48,21 @@ ASSUMPTIONS = [
     'oracle scope = the property\'s quantifier: results outside 280–450 K / 2e4–1e6 Pa are only checked for T/P written; '
     'V, phase-boundary and ideal-vs-RR clauses are not judged with inert material present (T,P flashes with gas only are); '
     'S checks skip Benzene and Cyclohexane (their liquid entropy in `thermo` is quantised in 2–8 J/mol/K steps)',
+    'a flash that RAISES on a specification inside the generated ranges is an oracle failure (`raised:<pair>:<exc>`; `refused:<pair>` '
+    'for NotImplementedError on an H/S target taken from a two-phase state); exempt: infeasible x/y compositions, H/S targets from '
+    'one-phase states, S targets with Benzene/Cyclohexane, and refusals that meet the gas-above-pressure-bracket predicate (listed)',
+    'model lines cover the LAST fixed-point solve of each call (at most its last 60 iterations), not every solve of the outer '
+    'T/P iteration',
+    'known-finding predicates: aitken-oscillation is computed from the recorded iterates alone; the bracket predicates use '
+    'BubblePoint.solve_Py/solve_Ty of the anchored code plus a probe T,P flash; stale/fallback splits are recognised by re-flashing the '
+    'result; out-of-iterations by ≥ 21 objective evaluations (literal)',
     'not exercised: non-ideal Phi, method=\'shgo\', reactive flashes (gas_conversion / liquid_conversion)',
 ]
 TRUSTED = ['Lean 4.33 kernel', 'harness/props/c04.py + Driver/C04.lean', 'generator reach (see histogram)',
            'thermo/chemicals correlations (Psat, Tsat, Dortmund-UNIFAC γ), flexsolve']
 
+OUT_OF_ITER = 21      # objective evaluations of a call whose IQ_interpolation used all of its documented maxiter = 20 iterations (a
+                      # literal on purpose: the code's own constant must not move the known-finding predicate)
 NSOLVE = [0]          # number of VLE._solve_v calls in this process (to see a solver run out of iterations)
 S_NOISE = {}          # id(chemical) -> numerical noise of its liquid entropy, kJ/K/kg
 
@@ -463,7 +473,9 @@ class Run:
         except Skip:
             self.tags.append('skip-unresolvable'); return
         except Exception as e:
-            self.tags.append('skip-resolve-' + type(e).__name__); return
+            self.tags.append('skip-resolve-' + type(e).__name__)
+            self.fail(f'raised:reference-state:{type(e).__name__}', f'computing the reference state of `{" ".join(t)}` (real flashes of a copy of the stream) raised {type(e).__name__}: {e}')
+            return
         ka, kb = PAIR_KW[pair]
         if getattr(self, '_inherit_hs_ok', None) is False: self.ref_two = False
         self.last_hs_ok = self.ref_two is not False
@@ -500,7 +512,7 @@ class Run:
             err = type(e).__name__
         finally:
             REC = None
-        self.last_out_of_iter = rec['nsolve'] >= int(vm.VLE.maxiter) + 1
+        self.last_out_of_iter = rec['nsolve'] >= OUT_OF_ITER
         self.prev_sfx = getattr(self, 'last_sfx', set())
         self.last_sfx = set()
         self.last = (snap, pair, a, b)
@@ -521,19 +533,43 @@ class Run:
         psat = float(chem1.Psat(a)) if (chem1 is not None and ka == 'T') else 0.
         tsat = safe_tsat(chem1, a) if (chem1 is not None and ka == "P") else 0.
         sol = float('nan')      # the model is NOT told what the solver delivered: it answers NaN (= unconstrained) for that field
+        refusal_sfx = ''
+        if err == 'NotImplemented' and self.ref_two is True and Fl > 0 and ncase == 'many':
+            # with gas, set_TH / set_TS compare the target with the all-liquid stream at TWICE the bubble pressure; a
+            # target whose equilibrium pressure lies above that bracket end can fall below that comparison value
+            try:
+                chs_ = [th.chemicals.tuple[i] for i in idx]
+                pb_ = float(tmo.equilibrium.BubblePoint(chs_, th).solve_Py(mol / F, a)[0])
+                c_ = restore(th, snap); c_.vle(T=a, P=2 * pb_)
+                if float(c_.H if kb == 'H' else c_.S) > b: refusal_sfx = ':gas-above-pressure-bracket'
+            except Exception:
+                pass
         two_flag = two
-        if err == 'NotImplemented': two_flag = False
-        elif pair in ('TH', 'TS') and err is None: two_flag = True
+        if pair in ('TH', 'TS'):
+            # from the REFERENCE state of the target where it is known (a target taken from a state with both phases
+            # present is inside the range in which set_TH / set_TS must answer), otherwise from the outcome
+            if self.ref_two is True and not refusal_sfx: two_flag = True      # (a refusal of the listed gas-bracket family is mirrored)
+            elif err == 'NotImplemented': two_flag = False
+            elif err is None: two_flag = True
+        elif err == 'NotImplemented': two_flag = False
         line = f'call {pair} {ncase} {int(two_flag)} {fl(T0)} {fl(P0)} {fl(a)} {fl(b if isinstance(b, float) else 0.)} {fl(psat)} {fl(tsat)} {fl(sol)}'
         if err is None:
             self.emit(line, f'T={fl(T1)} P={fl(P1)}')
         elif err in ('NoEquilibrium', 'NotImplemented', 'Assertion'):
             self.emit(line, 'err=' + err)
             self.tags.append('err:' + err)
+            if err == 'NotImplemented' and self.ref_two is True and ncase != 'noeq':
+                # "cannot solve for pressure yet" although the target is the H / S of a state with both phases present
+                sfx = refusal_sfx
+                self.fail(family_sig(f'refused:{pair}:{ncase}', ka, sfx), f'vle({ka}={a!r}, {kb}={b!r}) raised NotImplementedError although the specified {kb} is that of a two-phase state at this {ka}')
             return
         else:
-            # flexsolve / InfeasibleRegion / domain errors: runtime behaviour the model cannot exhibit
+            # any other exception on a specification inside the generated (valid) ranges: the call did not honour it
             self.tags.append('raised:' + err)
+            # (a liquid / vapour composition that cannot bracket the feed at the shifted T or P is legitimately refused)
+            noisy_S = kb == 'S' and any(th.chemicals.tuple[i].ID in S_NOISY for i in idx)     # S(T) of these is not even monotone
+            if ncase != 'noeq' and not (kb in ('x', 'y') and err == 'InfeasibleRegion') and not (kb in ('H', 'S') and self.ref_two is False) and not noisy_S:
+                self.fail(f'raised:{pair}:{err}', f'vle({ka}={a!r}, {kb}={b if isinstance(b, float) else np.asarray(b)!r}) on {ncase} volatile chemical(s) raised {err}')
             return
 
         # ---------------- oracle A: the specified T / P are on the stream ---------
@@ -642,7 +678,7 @@ class Run:
             # condensable part when non-condensable gas is present; if the stream at (T, 2·P_bubble) still has more
             # enthalpy (entropy) than specified, the solution lies above the bracket and the solver cannot reach it
             if not (ka == 'T' and kb in ('H', 'S') and ncase == 'many' and (Fl > 0 or Fh > 0)): return ''
-            if rec['nsolve'] >= int(vm.VLE.maxiter) + 1:
+            if rec['nsolve'] >= OUT_OF_ITER:
                 # with gas present H(P) (S(P)) at fixed T has a sharp knee where the condensable part starts to boil;
                 # IQ_interpolation (maxiter=20, checkiter=False) used all its iterations shrinking the bracket from one
                 # side and returned silently
@@ -715,6 +751,29 @@ class Run:
                     self.fail(f'V-not-met:{pair}:one', f'specified V={b}, result {Vfrac(s)}')
             return
 
+        # ---------------- oracle G: an H / S specified flash returns an EQUILIBRIUM state ----------------
+        # (set_PH's final correction closes H whatever T the solver returned; the split must still be the one a T,P flash of
+        # the same stream gives at the returned T, P — without inert material, where no bracket-end fallbacks exist)
+        if kb in ('H', 'S') and not inert and hs_ok and two and not (kb == 'S' and s_noisy):
+            try:
+                c = restore(th, (arr(s.imol['l']), arr(s.imol['g']), T1, P1)); c.vle(T=T1, P=P1)
+                dev = float(np.abs(arr(c.imol['g']) - arr(s.imol['g'])).max() / (mol.sum()))
+            except Exception:
+                dev = 0.
+            self.tags.append('HS-equilibrium-checked')
+            if dev > 1e-4 and dev > 2 * self.resolution_spread(arr(s.imol['l']), arr(s.imol['g']), T1, P1, ka) + 1e-4:
+                self.fail(f'not-equilibrium:{pair}{unconv}', f'{pair} flash returned T={T1}, P={P1} with a split that differs by {dev:.3g} of the flow from the T,P flash of the same stream at that T, P (the specified {kb} is reproduced, the state is not an equilibrium state)')
+
+        # ---------------- oracle C0: V = 0 / V = 1 specified (bubble / dew point) ----------------
+        if kb == 'V' and not inert and b in (0.0, 1.0):
+            Vr = Vfrac(s)
+            Ps_ = np.array([c.Psat(T1) for c in [th.chemicals.tuple[i] for i in idx]], float)
+            Pb_, Pd_ = own_bubble_dew(th, [th.chemicals.tuple[i] for i in idx], mol / mol.sum(), Ps_, T1)
+            want = Pb_ if b == 0.0 else Pd_
+            self.tags.append('V-boundary-spec')
+            if Vr != b or abs(P1 - want) > 2e-5 * want + 2.:
+                self.fail(f'V-not-met:{pair}:boundary', f'specified V={b}: result V={Vr}, P={P1} at T={T1}; {"bubble" if b == 0.0 else "dew"} pressure there {want}')
+
         # ---------------- oracle C: V met within the solver's resolution ----------------
         if kb == 'V' and not inert and 0.02 < b < 0.98:
             Vr = Vfrac(s)
@@ -749,8 +808,12 @@ class Run:
             self.tags.append('xy-composition-checked')
 
         # ---------------- oracle E: iso-fugacity ---------------------------------------
+        two_sig = bool(two and min(l1.sum(), g1.sum()) > 1e-6 * (l1.sum() + g1.sum()))     # both phases hold a meaningful amount
+        v_ok = True
+        if kb == 'V' and not (b in (0.0, 1.0) or 0.02 < b < 0.98):
+            self.tags.append('V-spec-outside-range'); two_sig = False; v_ok = False      # quantifier: V in (0.02, 0.98)
         gas_only_TP = pair == 'TP' and Fl > 0 and Fh == 0       # a T,P flash has no bracketing fallbacks: equilibrium must hold with gas too
-        if two and pair in ('TP', 'TV', 'PV', 'Tx', 'Ty', 'Px', 'Py'):
+        if two_sig and pair in ('TP', 'TV', 'PV', 'Tx', 'Ty', 'Px', 'Py'):
             x = l1 / (l1.sum() + Fh_eff(s, th)); y = g1 / (g1.sum() + Fl)
             flq = tmo.equilibrium.LiquidFugacities(chems, th)(l1 / l1.sum(), T1, P1) * (l1.sum() / (l1.sum() + Fh_eff(s, th)))
             fgs = tmo.equilibrium.GasFugacities(chems, th)(g1 / g1.sum(), T1, P1) * (g1.sum() / (g1.sum() + Fl))
@@ -761,7 +824,7 @@ class Run:
                 self.fail(unconv_sig(f'iso-fugacity:{pair}{":gas" if inert else ""}', unconv), f'liquid fugacities {flq} vs vapour fugacities {fgs} (max relative gap {r:.3g}) at T={T1}, P={P1}')
 
         # ---------------- oracle F + model line: ideal package vs Raoult Rachford–Rice ------
-        if self.kind == 'ideal' and pair in ('TP', 'TV', 'PV') and (not inert or gas_only_TP):
+        if self.kind == 'ideal' and pair in ('TP', 'TV', 'PV') and (not inert or gas_only_TP) and v_ok:
             Ps = np.array([c.Psat(T1) for c in chems], float)
             K = Ps / P1
             zz = mol / F
@@ -771,7 +834,7 @@ class Run:
             self.emit(f'ideal {fl(zl)} {fl(zh)} | {vec(zz)} | {vec(K)}', f'V={fl(Vimpl)}')
             if abs(Vpy - Vimpl) > 1e-5:
                 self.fail(unconv_sig(f'ideal-vs-RR:{pair}', unconv), f'ideal package: vapour fraction {Vimpl} but Raoult Rachford–Rice gives {Vpy} (z={zz}, K={K}, light {zl}, heavy {zh})')
-            elif two:
+            elif two_sig:
                 xr = zz / (1 + Vpy * (K - 1)); yr = K * xr
                 xi = l1 / (l1.sum() + Fh); yi = g1 / (g1.sum() + Fl)
                 if max(np.abs(xr - xi).max(), np.abs(yr - yi).max()) > 1e-5:
@@ -811,6 +874,7 @@ class Run:
         snap, pair, a, b = self.last
         ka, kb = PAIR_KW[pair]
         if kb in ('x', 'y'): return
+        if self.boundary_V_with_inert(kb, b, snap): return
         if kb in ('H', 'S') and not self.last_hs_ok: return
         if kb == 'S' and any(c.ID in S_NOISY and (snap[0][i] + snap[1][i]) > 0 for i, c in enumerate(self.th.chemicals.tuple)):
             self.tags.append('S-noisy-skip'); return
@@ -823,8 +887,13 @@ class Run:
             try:
                 c.vle(**{ka: a, kb: bb})
             except Exception as e:
-                self.tags.append('scale-raised'); return
-            out_iter = out_iter or (NSOLVE[0] - n0 >= int(vm.VLE.maxiter) + 1)
+                self.tags.append('scale-raised')
+                if isinstance(e, NotImplementedError) and ka == 'T' and kb in ('H', 'S') and gas_above_probe(self.th, snap, a, b, kb):
+                    self.fail('not-reproduced:T-first:many:gas-above-pressure-bracket', f'{pair} flash of the k·feed replica (k={kk}) refused (NotImplementedError): target above the pressure bracket [P_dew, 2·P_bubble] used with gas present')
+                    return
+                self.fail(f'raised:{pair}:{type(e).__name__}', f'{pair} flash of the k·feed replica (k={kk}) raised {type(e).__name__} although the flash of the stream itself returned')
+                return
+            out_iter = out_iter or (NSOLVE[0] - n0 >= OUT_OF_ITER)
             res.append((arr(c.imol['l']), arr(c.imol['g']), float(c.T), float(c.P)))
         (l1, g1, T1, P1), (lk, gk, Tk, Pk) = res
         Ftot = (l1 + g1).sum()
@@ -838,6 +907,24 @@ class Run:
             sfx = self.fallback_suffix(ka, kb, ((l1, g1, T1, P1), (lk / k, gk / k, Tk, Pk)))
             sfx = sfx or self.t_first_scaling_suffix(ka, kb, snap, out_iter, self.last_sfx)
             self.fail(family_sig(f'scaling:{pair}', ka, sfx, scaling=True), f'{pair} flash of k·feed (k={k}): products/k differ from products of the feed by {dev:.3g} of the total flow; T {T1} vs {Tk}, P {P1} vs {Pk}')
+
+
+def gas_above_probe(th, snap, T, target, kb):
+    """gas present and the T,P flash of the stream at TWICE the bubble pressure of its condensable part still has more H (S)
+    than the target: the solution of a T,H / T,S specification lies above the bracket set_TH / set_TS use"""
+    try:
+        chems = th.chemicals
+        tot = snap[0] + snap[1]
+        li = list(chems._light_indices)
+        if not li or tot[li].sum() <= 0: return False
+        nz = set(int(i) for i in np.nonzero(tot)[0])
+        idx = list(chems.get_vle_indices(nz))
+        chs = [chems.tuple[i] for i in idx]
+        pb = float(tmo.equilibrium.BubblePoint(chs, th).solve_Py(tot[idx] / tot[idx].sum(), T)[0])
+        c = restore(th, snap); c.vle(T=T, P=2 * pb)
+        return float(c.H if kb == 'H' else c.S) > target
+    except Exception:
+        return False
 
 
 def _resolution_spread(self, l1, g1, T1, P1, ka):
@@ -858,14 +945,15 @@ def _resolution_spread(self, l1, g1, T1, P1, ka):
 Run.resolution_spread = _resolution_spread
 
 
-KNOWN_SUFFIXES = (':gas-above-pressure-bracket', ':inert:solver-out-of-iterations', ':gas:non-equilibrium-split-at-bracket-end')
+KNOWN_SUFFIXES = (':gas-above-pressure-bracket', ':inert:solver-out-of-iterations', ':gas:non-equilibrium-split-at-bracket-end',
+                  ':inert:bubble-dew-fallback-split')
 
 
 def family_sig(base, ka, sfx, scaling=False):
     """One signature per documented MECHANISM (pinned by its predicate), whatever the pair (TH / TS, PH / PS), the quantity (H / S)
     or the scaling oracle (replicas / same-stream history) through which it surfaces; everything else keeps its specific name."""
     if sfx in KNOWN_SUFFIXES:
-        side = 'T-first' if ka == 'T' else 'P-first'
+        side = 'V-spec' if sfx == ':inert:bubble-dew-fallback-split' else ('T-first' if ka == 'T' else 'P-first')
         return (f'scaling:{side}{sfx}' if scaling else f'not-reproduced:{side}:many{sfx}')
     return base + sfx
 
@@ -893,9 +981,24 @@ def _fallback_suffix(self, ka, kb, results):
     temperature bracket, or IQ_interpolation's "lucky guess" at the bracket end) leave a split that is NOT the equilibrium
     split at the returned T and P (a uniform fraction of the vapour is condensed instead).  Which of the two paths is
     taken depends on rounding, so two such flashes need not scale.  Recognised by re-flashing each result at its own T, P."""
-    if not (ka == 'P' and kb in ('H', 'S')): return ''
     chems = self.th.chemicals
     li = list(chems._light_indices)
+    if kb == 'V':
+        # set_PV / set_TV with gas or solute: when the shifted bracket end does not reach the specified V the code writes a
+        # bubble / dew composition instead of solving (not an equilibrium split); whether it does depends on rounding
+        hi = list(chems._heavy_indices)
+        l0, g0 = results[0][0], results[0][1]
+        inert = (li and (l0 + g0)[li].sum() > 0) or (hi and ((l0 + g0)[hi] * chems._heavy_solutes).sum() > 0)
+        if not inert: return ''
+        for (l_, g_, T_, P_) in results:
+            try:
+                c = restore(self.th, (l_, g_, T_, P_)); c.vle(T=T_, P=P_)
+            except Exception:
+                continue
+            if np.abs(arr(c.imol['g']) - g_).max() > 1e-4 * (l_ + g_).sum():
+                return ':inert:bubble-dew-fallback-split'
+        return ''
+    if not (ka == 'P' and kb in ('H', 'S')): return ''
     for (l_, g_, T_, P_) in results:
         if not li or (l_ + g_)[li].sum() <= 0: return ''
         try:
@@ -916,6 +1019,19 @@ def tp_differ(T1, Tk, P1, Pk, dev):
     if dev <= 2e-6: return abs(Tk - T1) > 0.5 or abs(Pk - P1) > 2e-3 * P1
     return abs(Tk - T1) > 5e-3 or abs(Pk - P1) > 1e-5 * P1 + 2.
 
+
+
+def boundary_V_with_inert(self, kb, b, snap):
+    """V specifications that are not judged by the history / scaling oracles: outside the quantifier's (0.02, 0.98) unless
+    exactly 0 or 1, and 0 / 1 with inert material (the code replaces the specification and uses its fallbacks)"""
+    if kb != 'V': return False
+    if not (b in (0.0, 1.0) or 0.02 < b < 0.98): return True
+    if b not in (0.0, 1.0): return False
+    chems = self.th.chemicals
+    tot = snap[0] + snap[1]
+    li, hi = list(chems._light_indices), list(chems._heavy_indices)
+    return bool((li and tot[li].sum() > 0) or (hi and (tot[hi] * chems._heavy_solutes).sum() > 0))
+Run.boundary_V_with_inert = boundary_V_with_inert
 
 def _revisit(self, t):
     """history on one stream: re-issue, with the identical numbers, the specification of the n-th flash before the current
@@ -942,6 +1058,7 @@ def _revisit(self, t):
     self.tags += ['revisit', f'revisit:{pair}-after-{self.hist[-1][0]}']
     if first is None or self.last_products is None: return
     if kb in ('H', 'S') and not self.last_hs_ok: return
+    if self.boundary_V_with_inert(kb, b, self.last[0]): return
     l1, g1, T1, P1 = first
     lk, gk, Tk, Pk = self.last_products
     Ftot = (l1 + g1).sum()
@@ -979,6 +1096,7 @@ def _revle(self, t):
     snap, pair, a, b = self.last
     ka, kb = PAIR_KW[pair]
     if kb in ('x', 'y'): return
+    if self.boundary_V_with_inert(kb, b, snap): return
     hs_ok = getattr(self, 'last_hs_ok', True)
     l1, g1, T1, P1 = self.last_products
     out1 = getattr(self, 'last_out_of_iter', False)
@@ -1147,7 +1265,8 @@ def gen_case(rng, ti=None):
             f'vle TH +{rng.choice([-6, 7])} v{round(rng.uniform(0.03, 0.97), 3)}',
             f'vle TS +{rng.choice([-6, 7])} v{round(rng.uniform(0.03, 0.97), 3)}',
             f'vle TV +{rng.choice([-6, 7])} {round(rng.uniform(0.03, 0.97), 4)}',
-            f'vle PV *{rng.choice([0.8, 1.25])} {round(rng.uniform(0.03, 0.97), 4)}']
+            f'vle PV *{rng.choice([0.8, 1.25])} {round(rng.uniform(0.03, 0.97), 4)}',
+            f'vle PV @ {rng.choice([0.0, 1.0])}', f'vle TV @ {rng.choice([0.0, 1.0])}']
     has_gas = 'O2=' in feed
     def low_vap():
         # non-condensable gas present: enthalpy / entropy of an equilibrium state below (or just above) the bubble
@@ -1245,7 +1364,7 @@ def spec_grid():
              'many': 'feed 0 300.0 101325.0 l:Methanol=4.0,Ethanol=3.5,1-Butanol=2.5',
              'binary': 'feed 1 300.0 101325.0 l:Hexane=6.0,Octane=4.0',
              'inert': 'feed 3 300.0 101325.0 l:Methanol=5.0,1-Propanol=5.0,Glucose=0.2 g:O2=0.3'}
-    specs = ['vle TP 345.0 60000.0', 'vle TV 345.0 0.4', 'vle TH 345.0 v0.4', 'vle TS 345.0 v0.4',
+    specs = ['vle TP 345.0 60000.0', 'vle TV 345.0 0.4', 'vle TV 345.0 0.0', 'vle TV 345.0 1.0', 'vle PV 60000.0 0.0', 'vle PV 60000.0 1.0', 'vle TH 345.0 v0.4', 'vle TS 345.0 v0.4',
              'vle PV 60000.0 0.4', 'vle PH 60000.0 v0.4', 'vle PS 60000.0 v0.4']
     out = []
     for f in feeds.values():
